@@ -176,7 +176,7 @@ impl<T: BitRead> PackedRead for T {
     #[inline]
     fn read_semi_constrained_whole_number(&mut self, lower_bound: i64) -> Result<i64, Error> {
         let n = self.read_non_negative_binary_integer(None, None)?;
-        Ok((n as i64) + lower_bound)
+        Ok((n as i64).wrapping_add(lower_bound))
     }
 
     /// ITU-T X.691 | ISO/IEC 8825-2:2015, chapter 11.8
@@ -499,7 +499,12 @@ impl<T: BitWrite> PackedWrite for T {
         if value < lower_bound {
             Err(ErrorKind::ValueNotInRange(value, lower_bound, i64::MAX).into())
         } else {
-            self.write_non_negative_binary_integer(None, None, (value - lower_bound) as u64)
+            // value >= lower_bound: the offset fits an u64 even if it overflows an i64
+            self.write_non_negative_binary_integer(
+                None,
+                None,
+                value.wrapping_sub(lower_bound) as u64,
+            )
         }
     }
 
